@@ -84,15 +84,18 @@ fn scenario(name: &'static str, credit: u32, polls: usize, task_ops: &'static st
     loom::model(move || {
         let (stream, data) = pair(credit);
         let stream = Arc::new(stream);
-        let wk = std::sync::Arc::new(CountingWaker(std::sync::atomic::AtomicUsize::new(0)));
+        // one waker per poll, so that a wake-up can be attributed to the registration it served
+        let wks: Vec<std::sync::Arc<CountingWaker>> = (0..=polls)
+            .map(|_| std::sync::Arc::new(CountingWaker(std::sync::atomic::AtomicUsize::new(0))))
+            .collect();
         let writer = {
             let stream = stream.clone();
-            let wk = wk.clone();
+            let wks = wks.clone();
             loom::thread::spawn(move || {
-                let waker = std::task::Waker::from(wk);
-                let cx = Context::from_waker(&waker);
                 let mut out = Vec::new();
-                for _ in 0..polls {
+                for wk in wks.iter().take(polls) {
+                    let waker = std::task::Waker::from(wk.clone());
+                    let cx = Context::from_waker(&waker);
                     out.push(res(stream.poll_obtain_write_permission(&cx)));
                 }
                 out
@@ -112,17 +115,22 @@ fn scenario(name: &'static str, credit: u32, polls: usize, task_ops: &'static st
         });
         let results = writer.join().unwrap();
         let data = task.join().unwrap();
-        let woken = wk.0.load(std::sync::atomic::Ordering::SeqCst);
+        let woken: Vec<String> = wks
+            .iter()
+            .take(polls)
+            .map(|w| format!("{}", w.0.load(std::sync::atomic::Ordering::SeqCst)))
+            .collect();
         // after everything has happened: what does a fresh poll say, and what is left
-        let waker = std::task::Waker::from(wk.clone());
+        let waker = std::task::Waker::from(wks[polls].clone());
         let cx = Context::from_waker(&waker);
         let after = res(stream.poll_obtain_write_permission(&cx));
         let credit_final = data.psh_send_remaining.load(Ordering::Acquire);
         let closed = data.finish_sent.load(Ordering::Acquire);
         let rs: Vec<String> = results.iter().map(|r| format!("\"{r}\"")).collect();
         emit(&format!(
-            "{{\"sc\":\"{name}\",\"credit\":{credit},\"ops\":\"{task_ops}\",\"polls\":[{}],\"woken\":{woken},\"after\":\"{after}\",\"credit_final\":{credit_final},\"closed\":{closed}}}",
-            rs.join(",")
+            "{{\"sc\":\"{name}\",\"credit\":{credit},\"ops\":\"{task_ops}\",\"polls\":[{}],\"woken\":[{}],\"after\":\"{after}\",\"credit_final\":{credit_final},\"closed\":{closed}}}",
+            rs.join(","),
+            woken.join(",")
         ));
     });
 }
@@ -150,4 +158,8 @@ fn verif_wake_credit_race() {
 #[test]
 fn verif_wake_credit_close() {
     scenario("credit_close", 1, 2, "c");
+}
+#[test]
+fn verif_wake_close_ack() {
+    scenario("close_ack", 0, 2, "ca");
 }
